@@ -735,9 +735,9 @@ func c16Run(r *hx.Run, bin string, seq *c16Seq, rnd *rand.Rand) {
 			},
 			func() string {
 				// the old listener has been closed for a while now; any later update starts the server
-				time.Sleep(11500 * time.Millisecond)
+				time.Sleep(13 * time.Second)
 				logical.Locations[1].RespHeaders = append(logical.Locations[1].RespHeaders, "X-Later:1")
-				return "unrelated update 11.5 s later: the re-added server must be listening afterwards"
+				return "unrelated update 13 s later: the re-added server must be listening afterwards"
 			},
 		}
 	case "server_remove_then_readd":
@@ -1000,7 +1000,7 @@ func c16Run(r *hx.Run, bin string, seq *c16Seq, rnd *rand.Rand) {
 }
 
 func c16(r *hx.Run) {
-	r.Rule = "two real pike processes per sequence. The live one starts on a base configuration (2 caches, 2 upstreams, 2 locations, 2 servers, 1 compress profile) and receives 2-6 random valid updates (32 mutation kinds: set/unset min length, filter, compress profile, cache, location list; add/remove server, location, upstream, compress profile; set/unset rewrites, added headers, added query, upstream Accept-Encoding, upstream enableH2C, upstream server list; override/remove bestCompression) through the admin PUT /config or a single in-place write of the file, each completion observed through the update.done hook, under continuous traffic on an unchanged server; the fresh one is started on the final configuration. A probe suite derived from the final configuration (servers x 4 prefixes x sizes around the effective threshold x 3 content types x cacheable or not x Accept-Encoding, each twice) is run against both and compared field by field (status, label, encoding, encoded and decoded bytes, headers, which origin saw which path/query/headers), plus cache binding between servers, the retained hit of a key cached before the updates, and (one sequence) that a removed server stops listening. Thirteen directed sequences add: a server re-added inside the graceful close of its old listener and an unrelated update 11.5 s later (it must be listening then), a rewrite rule whose replacement changes while its pattern stays, enableH2C of an upstream set, unset and set again, the last compress profile (an override of bestCompression) removed so that the whole section disappears from the saved file, bestCompression overridden then removed, a server removed and re-added, cache switch/rename, a level set then unset, two servers removed at once, a cache sharing a store removed, restart-only cache settings changed, and a configuration saved while the previous one (with an upstream whose health endpoint is slow) is still being applied. Non-trivial/distinct = step sequence."
+	r.Rule = "two real pike processes per sequence. The live one starts on a base configuration (2 caches, 2 upstreams, 2 locations, 2 servers, 1 compress profile) and receives 2-6 random valid updates (32 mutation kinds: set/unset min length, filter, compress profile, cache, location list; add/remove server, location, upstream, compress profile; set/unset rewrites, added headers, added query, upstream Accept-Encoding, upstream enableH2C, upstream server list; override/remove bestCompression) through the admin PUT /config or a single in-place write of the file, each completion observed through the update.done hook, under continuous traffic on an unchanged server; the fresh one is started on the final configuration. A probe suite derived from the final configuration (servers x 4 prefixes x sizes around the effective threshold x 3 content types x cacheable or not x Accept-Encoding, each twice) is run against both and compared field by field (status, label, encoding, encoded and decoded bytes, headers, which origin saw which path/query/headers), plus cache binding between servers, the retained hit of a key cached before the updates, and (one sequence) that a removed server stops listening. Thirteen directed sequences add: a server re-added inside the graceful close of its old listener and an unrelated update 13 s later (it must be listening then), a rewrite rule whose replacement changes while its pattern stays, enableH2C of an upstream set, unset and set again, the last compress profile (an override of bestCompression) removed so that the whole section disappears from the saved file, bestCompression overridden then removed, a server removed and re-added, cache switch/rename, a level set then unset, two servers removed at once, a cache sharing a store removed, restart-only cache settings changed, and a configuration saved while the previous one (with an upstream whose health endpoint is slow) is still being applied. Non-trivial/distinct = step sequence."
 	r.Assume = []string{"restart-only settings (cache size/hit-for-pass/store, server log format, admin) are never changed", "gzip/brotli are deterministic, so equal levels give equal bytes", "addresses differ between the two processes and are not compared"}
 	bin, err := hx.BuildPike(r.Scratch)
 	if err != nil {
